@@ -143,4 +143,15 @@ TEXT = {
          'never a violation.',
  'technique': 'property-based testing (rapid) of concurrent call plans under the Go race detector with a buffer-poisoning hook: differential against the '
               'sequential result of each call'},
+    'C17': {'text': "Exploration over generated service descriptors: the plugin binary is rebuilt from /repo's tree and fed CodeGeneratorRequests for files with "
+         'absent/single/dotted packages, 0..3 services × 1..5 methods of all four kinds, names incl. snake_case and every Go keyword / predeclared identifier, '
+         'deprecation options, comments, local/nested/imported/well-known message types and three output-path modes. Success, determinism, no output without '
+         'services, file name and package, parse + full type-check, and an AST-level routing oracle (canonical path in handler registration, Spec and client '
+         'constructor; constructor and Call* matching the kind; mount prefix; name constants). The checked-in ping.connect.go must be regenerated '
+         'byte-identically from the checked-in descriptor.',
+ 'design_ref': 'DESIGN.md §5 C17',
+ 'note': 'Trusted: protogen / protoc-gen-go from the module cache, go/parser, go/types. Routing is checked on the AST of the generated code; compiling and '
+         'executing generated packages is not part of the registered commands.',
+ 'technique': 'property-based testing (rapid) over generated descriptors: generator run as a black box; parse/type-check/AST-routing oracle; determinism; '
+              'golden equality for the checked-in code'},
 }
